@@ -156,6 +156,21 @@ def list_caps(kind, hdr):
 def mon_c01(case):
     """capacity bounds, partition bounds, one partition per key, len/is_empty/contains accounting"""
     kind = case["kind"]
+    if kind == 10:
+        # RawLRU with a panic injected into one call into user code (callback, Hash, Eq, Drop): the bound holds in the
+        # state the panic leaves behind and ever after (snapshot: cap n (k v node)* index.. code)
+        faulted = None
+        for step, (op, out, cb, acct, snap) in enumerate(case["lines"], 1):
+            if op and op[0] == 97 and faulted is None:
+                faulted = step
+            if not op or op[0] in (98, 99) or len(snap) < 2:
+                continue
+            # (a node that a panic left linked without an index entry is not an entry any more: it leaks, C18)
+            nidx = len(snap) - 1 - (2 + 3 * snap[1])
+            if nidx > snap[0]:
+                return step, (f"the cache holds {nidx} entries (len()), capacity {snap[0]}"
+                              + (f" (after the panic injected into user code at step {faulted})" if faulted else ""))
+        return None
     if kind not in LAYOUT:
         return None
     resident_idx = LAYOUT[kind][2]
@@ -1722,6 +1737,12 @@ def mon_liar(case, what):
                           f"{WEAK_CODES.get(snap[0], snap[0])} (chain {snap[1] if len(snap) > 1 else '?'} nodes, index {snap[2] if len(snap) > 2 else '?'} entries)")
         if what == "own" and len(acct) >= 3 and acct[2]:
             return step, f"with a hasher that changes its answers: call {op[:4]} dropped {acct[2]} key/value object(s) twice"
+        if what == "mem" and op[0] == 25 and len(snap) >= 3 and snap[1] != snap[2]:
+            return step, (f"the list of the clone has {snap[1]} nodes but its index {snap[2]} entries (a clone is built under one state "
+                          "of the hasher, so its nodes are exactly the entries of its index), with a key type whose Clone does not keep keys distinct")
+        if what == "own" and op[0] == 25 and len(snap) >= 3 and snap[1] != snap[2]:
+            return step, (f"the clone links {snap[1]} nodes but indexes {snap[2]}: a node without an index entry is never released "
+                          "(its key and value leak), with a key type whose Clone does not keep keys distinct")
     return None
 
 
